@@ -24,7 +24,7 @@ RULE = ('cases = command field (all 23) x data set absent/present (sizes around 
         'decoder still receiving until the PDV R-dimse designates, then exactly one message of '
         'the right class, context, command set and data bytes; non-trivial = >= 2 fragments; '
         'distinct = distinct (code, sizes, composition, mode, state)'
-        '; duplex (outgoing generator messages handed over before each incoming PDU) and rival (a second thread receiving file-backed instances under pre-emption) cases')
+        '; duplex (outgoing generator messages handed over before each incoming PDU) and rival (a second thread receiving file-backed instances under pre-emption) cases; 30 % of data-set flags other than 0001H')
 ASSUMPTIONS = ['R-dimse completion rule: last command fragment if Command Data Set Type = 0101H, '
                'else last data fragment', 'pydicom is not used by the oracle: the Part-10 meta '
                'header is read by a small explicit-VR-LE reader written for the check',
@@ -52,6 +52,9 @@ def compositions(k):
 
 def _cmd_fields(code, has_data, rnd):
     f = {0x0100: code, 0x0800: 0x0001 if has_data else 0x0101}
+    if has_data and rnd.random() < 0.3:
+        # PS3.7 E.1: any value other than 0101H says that a data set follows
+        f[0x0800] = rnd.choice([0x0000, 0x0102, 0x0100, 0x0002, 0xFFFF])
     if code in (0x0110, 0x0120, 0x0130, 0x0150):
         f[0x0003] = CT
         f[0x1001] = '1.2.3.%d' % rnd.randrange(1000)
@@ -551,6 +554,10 @@ def _check_msg(v, item, code, fields, data, pcid, as_file, ts_uid, fsobj, start=
             val = el.value
             got[int(el.tag) & 0xffff] = int(val) if isinstance(val, int) else str(val)
     want = {k: (x if isinstance(x, int) else str(x)) for k, x in fields.items()}
+    for d_ in (got, want):
+        if 0x0800 in d_:
+            # what the field says is compared, not how the sender chose to say "present"
+            d_[0x0800] = 'none' if d_[0x0800] == 0x0101 else 'present'
     if got != want:
         v('command-set-differs', 'got %r\nwant %r' % (got, want))
     ds = msg.data_set
